@@ -120,6 +120,7 @@ fn cmd_drive(m: &HashMap<String, Vec<String>>) -> i32 {
             shapes: shapes.clone(),
             reps: p["reps"].as_u64().map(|x| x as usize),
             observe: p["observe"].as_u64().map(|x| x as usize).unwrap_or(0),
+            odd: p["odd"].as_u64().unwrap_or(0) as usize,
             progress: one(m, "progress").map(PathBuf::from),
         };
         metas.push(drive::run(&o, &mut out, tid));
